@@ -1,16 +1,100 @@
+/-
+  C12 — Decompiler output does not depend on what was generated or parsed before.
+  Model: Drx/Lscr (genLingo / genJs return the text AND the tree the generator leaves behind; parseScriptWith threads the
+  operand registers of the shared opcode singletons). Helper lemmas: DrxProofs/LscrGen.lean, DrxProofs/LscrRegs.lean.
+-/
 import Drx.Lscr
 import Drx.Gen.Mutations
+import DrxProofs.LscrGen
+import DrxProofs.LscrRegs
 namespace Drx.C12
 open Drx Drx.Lscr
 
-/-- the writes to the tree inside generator code which the model accounts for (`afterLingo`, `afterLingoFunc`) -/
+/-! ### the inventory of writes inside generator code -/
+
+/-- the writes to the tree inside generate_lingo / generate_js / generate_*_code which the model accounts for
+    (`afterLingo`: use_hash, use_parenthesis; `afterLingoFunc`: global_vars) -/
 def accountedWrites : List (String × String × String × String × String) := [
   ("ast.constant_val", "Symbol", "generate_lingo", "assign", "self.use_hash"),
   ("ast.function_op", "Statement", "generate_lingo", "assign", "cast(CallFunction, self.code).use_parenthesis"),
   ("codegen.lingo", "-", "generate_lingo_code", "assign", "f.global_vars")
 ]
 
-/-- the inventory of writes found in the generator code of /repo (regenerated each run) is exactly what the model accounts for -/
+/-- the inventory regenerated from /repo on every run is exactly that list: a new write inside a generator breaks this -/
 theorem inventory_accounted : Gen.Mutations.inventory = accountedWrites := by decide
+
+/-! ### generation histories on one parsed tree -/
+
+inductive GOp where
+  | L | J
+  deriving DecidableEq, Repr
+
+/-- one generator call: the text and the tree it leaves behind -/
+def gen : GOp → Script → R Str × Script
+  | .L => genLingo
+  | .J => genJs
+
+/-- the text of a generation from a tree nobody has generated from yet -/
+def fresh (o : GOp) (t : Script) : R Str := (gen o t).1
+
+/-- outputs of a history: every call sees the tree its predecessors left behind -/
+def runOps : List GOp → Script → List (R Str)
+  | [], _ => []
+  | o :: os, t => (gen o t).1 :: runOps os (gen o t).2
+
+/-- the four commuting lemmas (genL∘afterL, genL∘afterJ, genJ∘afterL, genJ∘afterJ) in one statement -/
+theorem gen_after (o o' : GOp) (t : Script) : fresh o' (gen o t).2 = fresh o' t := by
+  cases o <;> cases o' <;> simp only [fresh, gen, genLingo, genJs]
+  · cases h : lingoText t <;> simp [lingoText_afterLingoScript, h]
+  · cases h : lingoText t <;> simp only [jsText_afterLingoScript] <;> cases jsText t <;> rfl
+  · cases h : jsText t <;> simp [afterJsScript_id]
+  · cases h : jsText t <;> simp [afterJsScript_id, h]
+
+theorem genL_afterL (t : Script) : fresh .L (gen .L t).2 = fresh .L t := gen_after .L .L t
+theorem genL_afterJ (t : Script) : fresh .L (gen .J t).2 = fresh .L t := gen_after .J .L t
+theorem genJ_afterL (t : Script) : fresh .J (gen .L t).2 = fresh .J t := gen_after .L .J t
+theorem genJ_afterJ (t : Script) : fresh .J (gen .J t).2 = fresh .J t := gen_after .J .J t
+
+/-- any tree that prints like `t` keeps doing so through a history -/
+theorem runOps_of_equiv (ops : List GOp) : ∀ (t t' : Script), (∀ o, fresh o t' = fresh o t) → runOps ops t' = ops.map fun o => fresh o t := by
+  induction ops with
+  | nil => intro t t' _; rfl
+  | cons o os ih =>
+    intro t t' h
+    simp only [runOps, List.map_cons]
+    have hh : fresh o t' = fresh o t := h o
+    rw [show (gen o t').1 = fresh o t' from rfl, hh]
+    congr 1
+    apply ih
+    intro o'
+    rw [gen_after o o' t', h o']
+
+/-- C12, first half: for every sequence of generate-Lingo / generate-JS calls on one parsed tree, each output equals the
+    output of the same generator on the fresh tree -/
+theorem gen_history (ops : List GOp) (t : Script) : runOps ops t = ops.map fun o => fresh o t :=
+  runOps_of_equiv ops t t fun _ => rfl
+
+/-- the whole-movie path (Lingo, then JavaScript from the same tree) prints what the two command-line tools print -/
+theorem movie_path_eq_cli (t : Script) : runOps [.L, .J] t = [fresh .L t, fresh .J t] := gen_history _ t
+
+/-- generating twice in either order -/
+example (t : Script) : runOps [.J, .L, .J, .L] t = [fresh .J t, fresh .L t, fresh .J t, fresh .L t] := gen_history _ t
+
+/-! ### parse histories -/
+
+/-- C12, second half: the operand registers left in the opcode singletons by earlier parses never influence a later
+    parse (every register is written before it is read): whatever the registers hold, the same script comes out -/
+theorem parse_regs_irrelevant (codec : Codec) (r r' : Regs) (lscr lnam : Bytes) :
+    (parseScriptWith codec r lscr lnam).map Prod.fst = (parseScriptWith codec r' lscr lnam).map Prod.fst :=
+  parseScriptWith_regs_irrelevant codec r r' lscr lnam
+
+/-- in particular a parse after any history equals the parse in a fresh process -/
+theorem parse_after_history (r : Regs) (lscr lnam : Bytes) :
+    (parseScriptWith .macRoman r lscr lnam).map Prod.fst = parseScript lscr lnam :=
+  parse_regs_irrelevant .macRoman r [] lscr lnam
+
+/-- the table fact behind it, on the regenerated opcode table: a class whose `process` reads an operand register is
+    registered with an instruction length under which `parse_opcodes` writes that register first -/
+theorem opcode_table_registers_ok : regsTableOk = true := regsTableOk_true
 
 end Drx.C12
